@@ -466,7 +466,7 @@ pub fn run(ctx: &mut Ctx) {
     ctx.require_class("huge_scoped_prefix", "scoped", cases / 2);
     ctx.extra.insert("exhaustive_over".into(), json!(format!("all 693,253 (from <= to) windows for {} fixed configuration(s)", nsweep)));
     if ctx.tier == Tier::Thorough && !ctx.failed() {
-        crate::fuzzrun::campaign(ctx, "fz_eval", 20_000, 16, 512);
+        crate::fuzzrun::campaign(ctx, "fz_eval", 8_000, 16, 512);
     }
 }
 
